@@ -127,8 +127,9 @@ Grow(defs, salt, i) ==
             defs \o <<[Def("virt", fname(s1), s1) EXCEPT !.refs =
                          IF fieldsOf(s1) = <<>> \/ Rnd(salt, i, 7) % 8 = 0
                          THEN <<Ref("value", "static", <<"imp", defs[10].name, defs[11].name>>)>>
-                         ELSE IF Rnd(salt, i, 7) % 8 = 1
-                         THEN <<Ref("alias", "field", <<Pick(FNs, salt, i, 8), Pick(FNs, salt, i, 9)>>)>>
+                         ELSE IF Rnd(salt, i, 7) % 8 \in {1, 2, 3}
+                         THEN (* `let v = f.g`: an alias of a member of an existing field *)
+                              <<Ref("alias", "field", <<defs[Pick(fieldsOf(s1), salt, i, 8)].name, Pick(FPool, salt, i, 9)>>)>>
                          ELSE <<Ref("alias", "field", <<defs[Pick(fieldsOf(s1), salt, i, 8)].name>>)>>]>>
         ELSE IF act = 6 THEN defs \o <<[Def("param", fname(s1), s1) EXCEPT !.refs = TyRef(<<"UInt">>)]>>   \* `name: UInt:8`
         ELSE IF act = 7 THEN
@@ -157,8 +158,45 @@ Build(defs, salt, i, n) ==
     IF i > n THEN defs
     ELSE CHOOSE r \in {Build(d2, salt, i + 1, n) : d2 \in {TLCEval(Grow(defs, salt, i))}} : TRUE
 
+(* A fixed tree on which the site space is enumerated exhaustively (GEN_FIXED = 1,
+   GEN_SITE_MOD = 1): Aa has a nested struct Bb, an abbreviated field, a composite
+   field, an anonymous bits with an abbreviated field, an alias vv of the composite
+   field, an alias uu of a member of it (uu.xx must go through yy.zz to Cc.xx) and
+   a parameter; the module also has an enum Bb (so `Bb` is ambiguous inside Aa and
+   an enum outside) and a struct Cc.                                            *)
+FixedTree ==
+    [defs |->
+       <<Def("mod", "", 0), Def("ext", "UInt", 1), Def("ext", "Int", 1), Def("ext", "Flag", 1),
+         Def("ext", "Bcd", 1), Def("ext", "Float", 1),
+         Def("mod", "imp.emb", 0),
+         Def("struct", "Aa", 7),
+         [Def("field", "xx", 8) EXCEPT !.refs = TyRef(<<"UInt">>)],
+         Def("enum", "Cc", 7),
+         Def("val", "VA", 10),
+         Def("mod", "m.emb", 0),
+         [Def("imp", "imp", MainId) EXCEPT !.target = 7],
+         Def("struct", "Aa", MainId),                                                   \* 14
+         Def("struct", "Bb", 14),                                                       \* 15
+         [Def("field", "yy", 15) EXCEPT !.refs = TyRef(<<"UInt">>)],                   \* 16
+         [Def("param", "ww", 14) EXCEPT !.refs = TyRef(<<"UInt">>)],                   \* 17
+         [Def("field", "xx", 14) EXCEPT !.abbr = <<"ab">>, !.refs = TyRef(<<"UInt">>)], \* 18
+         [Def("field", "yy", 14) EXCEPT !.refs = TyRef(<<"Aa", "Bb">>)],               \* 19
+         Def("anon", AnonName, 14),                                                     \* 20
+         [Def("field", "zz", 20) EXCEPT !.abbr = <<"cd">>, !.refs = TyRef(<<"UInt">>)], \* 21
+         [Def("virt", "vv", 14) EXCEPT !.refs = <<Ref("alias", "field", <<"yy">>)>>],  \* 22
+         Def("enum", "Bb", MainId),                                                     \* 23
+         Def("val", "VA", 23),                                                          \* 24
+         Def("struct", "Cc", MainId),                                                   \* 25
+         [Def("field", "xx", 25) EXCEPT !.refs = TyRef(<<"UInt">>)],                   \* 26
+         [Def("field", "zz", 15) EXCEPT !.refs = TyRef(<<"Cc">>)],                     \* 27  Aa.Bb.zz : Cc
+         [Def("virt", "uu", 14) EXCEPT !.refs = <<Ref("alias", "field", <<"yy", "zz">>)>>]>>]   \* 28  alias of a member
+
+GFIXED == EnvNat("GEN_FIXED", 0)
+PFX == IF GFIXED = 1 THEN "f" ELSE "t"
+
 Tree(t) ==
-    CHOOSE T \in {[defs |-> Build(BaseDefs(salt), salt, 1, 5 + (Rnd(salt, 0, 2) % 8))] : salt \in {H(GSALT * 313 + t)}} : TRUE
+    IF GFIXED = 1 THEN FixedTree
+    ELSE CHOOSE T \in {[defs |-> Build(BaseDefs(salt), salt, 1, 5 + (Rnd(salt, 0, 2) % 8))] : salt \in {H(GSALT * 313 + t)}} : TRUE
 
 ---------------------------------------------------------------------------
 (* candidate reference sites                                               *)
@@ -166,7 +204,7 @@ Types == <<"Aa", "Bb", "Cc", "UInt", "Xx">>
 Consts == <<"VA", "VB">>
 Members == <<"VA", "VB", "xx", "yy", "ab">>
 ImpMembers == <<"VA", "VB", "xx", "yy">>
-Heads == <<"xx", "yy", "zz", "ab", "cd", "imp", "this">>
+Heads == <<"xx", "yy", "zz", "ww", "vv", "uu", "ab", "cd", "imp", "this">>
 Snakes == <<"xx", "yy", "zz", "ab">>
 Three == <<"xx", "yy", "zz">>
 
@@ -183,11 +221,11 @@ StaticPath(p) ==
     ELSE IF p < 77 THEN <<Types[((p - 27) \div 10) + 1], Types[(((p - 27) \div 2) % 5) + 1], Consts[((p - 27) % 2) + 1]>>
     ELSE <<"imp", Types[((p - 77) \div 4) + 1], ImpMembers[((p - 77) % 4) + 1]>>
 
-NField == 62
+NField == 77
 FieldPath(p) ==
-    IF p < 7 THEN <<Heads[p + 1]>>
-    ELSE IF p < 35 THEN <<Heads[((p - 7) \div 4) + 1], Snakes[((p - 7) % 4) + 1]>>
-    ELSE <<Three[((p - 35) \div 9) + 1], Three[(((p - 35) \div 3) % 3) + 1], Three[((p - 35) % 3) + 1]>>
+    IF p < 10 THEN <<Heads[p + 1]>>
+    ELSE IF p < 50 THEN <<Heads[((p - 10) \div 4) + 1], Snakes[((p - 10) % 4) + 1]>>
+    ELSE <<Three[((p - 50) \div 9) + 1], Three[(((p - 50) \div 3) % 3) + 1], Three[((p - 50) % 3) + 1]>>
 
 NPaths(form) == CASE form = "type" -> NType [] form = "static" -> NStatic [] OTHER -> NField
 PathOf(form, p) == CASE form = "type" -> TypePath(p) [] form = "static" -> StaticPath(p) [] OTHER -> FieldPath(p)
@@ -241,14 +279,16 @@ WithSites(P, T, codes, k) ==
 Programs(t) ==
     CHOOSE out \in
       {IF BadDefs(T) # {}
-       THEN <<[id |-> "t" \o ToString(t) \o "-tree", what |-> "tree", defs |-> T.defs]>>
+       THEN <<[id |-> PFX \o ToString(t) \o "-tree", what |-> "tree", defs |-> T.defs]>>
        ELSE CHOOSE o2 \in
-              {<<[id |-> "t" \o ToString(t) \o "-ok", what |-> "oksites",
+              {<<[id |-> PFX \o ToString(t) \o "-ok", what |-> "oksites",
                   defs |-> WithSites(T, T, SortedIds(kept \ bad), 1).defs]>>
                \o [j \in 1 .. Len(badSeq) |->
-                     [id |-> "t" \o ToString(t) \o "-bad" \o ToString(badSeq[j]), what |-> "badsite",
+                     [id |-> PFX \o ToString(t) \o "-bad" \o ToString(badSeq[j]), what |-> "badsite",
                       defs |-> WithSite(T, T, badSeq[j], 1).defs]] :
-                 badSeq \in {SubSeq(SortedIds(bad), 1, IF Cardinality(bad) < MAXFAIL THEN Cardinality(bad) ELSE MAXFAIL)}} : TRUE :
+                 badSeq \in {LET m == (Cardinality(bad) \div MAXFAIL) + 1       \* thin out evenly, not "the first few"
+                                  thin == SortedIds({c \in bad : Rnd(GSALT + t, c % 1000, c \div 1000) % m = 0})
+                              IN  SubSeq(thin, 1, IF Len(thin) < MAXFAIL THEN Len(thin) ELSE MAXFAIL)}} : TRUE :
          T \in {Tree(t)},
          kept \in {TLCEval(Kept(Tree(t), H(GSALT * 17 + t)))},
          bad \in {TLCEval({c \in Kept(Tree(t), H(GSALT * 17 + t)) : SiteBad(Tree(t), c)})}} : TRUE
